@@ -290,7 +290,7 @@ PROPS = {
     },
     "C01": {
         "modules": ["Qvnt.Props.C01"],
-        "tie": [tie(r".*_(op|isValid|actsOn|new)_eq|rotate_eq|negWord_eq|yIPow_eq|forEach_eq|ctrlTest_iff|count_bits_eq", sources=r"UNSUPPORTED (?!class\.rs|dispatch\.rs: dispatch\.rs::for_each_par)"), tie2(r"single_(apply|from)_eq|multi_apply_eq|quant_apply_eq|h_(loop|h)_eq|pauli_\w+_eq|rotate_\w+_eq|swapmod_\w+_eq|op_\w+_eq|checked_eq", r"UNSUPPORTED (mod\.rs|h\.rs|pauli\.rs|rotate\.rs|swap\.rs|quant\.rs: register/quant\.rs::apply:)")],
+        "tie": [tie(r".*_(op|isValid|actsOn|new)_eq|rotate_eq|negWord_eq|yIPow_eq|forEach_eq|ctrlTest_iff|count_bits_eq", sources=r"UNSUPPORTED (?!class\.rs|dispatch\.rs: dispatch\.rs::for_each_par)"), tie2(r"single_(apply|from)_eq|multi_apply_eq|quant_apply_eq|h_(loop|h)_eq|pauli_\w+_eq|rotate_\w+_eq|swapmod_\w+_eq|op_\w+_eq|checked_eq", r"UNSUPPORTED (mod\.rs: operator/|h\.rs|pauli\.rs|rotate\.rs|swap\.rs|quant\.rs: register/quant\.rs::apply:)")],
         "suites": [
             suite("c01x", dict(count=0, max_n=3), dict(count=0, max_n=4)),
             suite("c01", dict(count=800, max_n=6), dict(count=20000, max_n=9)),
